@@ -21,6 +21,9 @@ LEVEL.update({
 LEVEL.update({
     "C19": "Theorems over the model of collect_fields.rs for ALL schemas, documents, selection sets: totality (fuel suffices on cyclic fragment graphs and unknown names) and, for an object parent type of a well-formed schema, exact equality with the specification's CollectFields (spec/SpecCollect.v: grouped by response key in order of first occurrence, fragments expanded once, type conditions by DoesFragmentTypeApply), plus the grouping guarantees. Correspondence: collect_fields is called on every selection set x every object type of generated documents and diffed against the extracted model and the extracted specification.",
 })
+LEVEL.update({
+    "C18": "17 theorems over the model of the helper traits of ext.rs (and do_types_overlap) for ALL schemas / types (any wrapper depth) / values (any nesting): is_subtype <-> the inductive subtype relation, reflexivity, transitivity (under wf_schema), named subtyping, possible types, overlap <-> intersecting run-time object sets and its symmetry, look-ups by name <-> the definition with that name, root types = schema-definition entries or default names, Value::compare <-> equality as trees, variables_in_use <-> variable leaves, is_required. Correspondence: exhaustive per pool schema (all names, all pairs of definitions, all pairs of type references to depth 2/3, all pairs of ~90 values) against the extracted model and the executable specification relations.",
+})
 NOTE = {}
 TECH = {}
 NOT_CLAIMED = {}
